@@ -14,7 +14,8 @@
   * adopted-by-Jsonnet deviations from CPython that are part of this reference: `%#o` writes `0`
     not `0o`; `%s` ignores precision; `%%` honours width; numbers are doubles and the integer
     conversions truncate them toward zero; parse errors are reported before any value is looked
-    at; `%g` counts the significant digits of |v| < 1 from the units digit.
+    at; `%g` counts the significant digits of |v| < 1 from the units digit; widths/precisions above
+    65535 and float precisions above 308 are errors.
 
   Shares only the data types (`Code`, `Val`, `Err` …) with the model.
 -/
@@ -50,29 +51,40 @@ def numField (s : List Char) : R (Width × List Char) :=
     let ds := s.takeWhile isDigitChar
     if decVal ds > 65535 then .error .tooLarge else .ok (.fixed (decVal ds), s.dropWhile isDigitChar)
 
-/-- one conversion specifier (text after `%`).  Running out of text anywhere is `truncated`. -/
-def parseSpec (s : List Char) : R (Code × List Char) := do
-  let (key, s1) ←
-    match s with
-    | '(' :: r =>
-      if r.contains ')' then pure (r.takeWhile (· ≠ ')'), (r.dropWhile (· ≠ ')')).drop 1)
-      else throw Err.truncated
-    | _ => pure ([], s)
-  let fl := s1.takeWhile isFlagChar
-  let s2 := s1.dropWhile isFlagChar
-  let (w, s3) ← numField s2
-  let (p, s4) ←
-    match s3 with
-    | '.' :: r => do let (p, r') ← numField r; pure (some p, r')
-    | _ => pure (none, s3)
-  let s5 := s4.dropWhile isLenMod
-  match s5 with
-  | [] => throw Err.truncated
+/-- optional mapping key `(key)`: the text up to the first `)` -/
+def keyField (s : List Char) : R (List Char × List Char) :=
+  match s with
+  | '(' :: r =>
+    if r.contains ')' then .ok (r.takeWhile (· ≠ ')'), (r.dropWhile (· ≠ ')')).drop 1)
+    else .error .truncated
+  | _ => .ok ([], s)
+
+/-- optional precision: `.` followed by a number field -/
+def precField (s : List Char) : R (Option Width × List Char) :=
+  match s with
+  | '.' :: r =>
+    match numField r with
+    | .ok (p, r') => .ok (some p, r')
+    | .error e => .error e
+  | _ => .ok (none, s)
+
+/-- length modifiers (ignored) and the conversion character -/
+def convField (key : List Char) (fl : Flags) (w : Width) (p : Option Width) (s : List Char) :
+    R (Code × List Char) :=
+  match s.dropWhile isLenMod with
+  | [] => .error .truncated
   | c :: rest =>
     match convTable.lookup c with
-    | none => throw Err.unknownConv
+    | none => .error .unknownConv
     | some (cv, caps) =>
-      pure ({ mkey := key, flags := flagsOf fl, width := w, prec := p, conv := cv, caps := caps }, rest)
+      .ok ({ mkey := key, flags := fl, width := w, prec := p, conv := cv, caps := caps }, rest)
+
+/-- one conversion specifier (text after `%`).  Running out of text anywhere is `truncated`. -/
+def parseSpec (s : List Char) : R (Code × List Char) := do
+  let (key, s1) ← keyField s
+  let (w, s3) ← numField (s1.dropWhile isFlagChar)
+  let (p, s4) ← precField s3
+  convField key (flagsOf (s1.takeWhile isFlagChar)) w p s4
 
 /-- the whole format string: literal runs (never empty, never containing `%`) and specifiers -/
 def parseFmtF : Nat → List Char → R (List Elem)
@@ -154,6 +166,11 @@ def floatConv (fl : Flags) (width : Nat) (neg : Bool) (body suffix : List Char) 
   else if fl.zero then sgn ++ zeros (width - len) ++ body ++ suffix
   else spaces (width - len) ++ sgn ++ body ++ suffix
 
+/-- adopted limit: the decimal expansion of a double is generated to at most 308 places
+    (10^308 is the largest power of ten that is a finite double); a larger precision of an
+    e/E/f/F/g/G conversion is a "width or precision too large" error, whatever the value -/
+def maxFloatPrec : Nat := 308
+
 def isScalar (n : Nat) : Bool := n < 0xD800 || (0xE000 ≤ n && n ≤ 0x10FFFF)
 
 def lookupDig (l : List (Nat × FDig)) (p : Nat) : R FDig :=
@@ -186,16 +203,19 @@ def conv (c : Code) (width : Nat) (prec : Option Nat) (v : Val) : R (List Char) 
     let n ← needNum v
     pure (intConv fl width prec c.conv c.caps (truncInt n))
   | .flt => do
-    let n ← needNum v
     let p := prec.getD 6
+    if p > maxFloatPrec then throw Err.tooLarge
+    let n ← needNum v
     let d ← lookupDig n.fix p
     pure (floatConv fl width n.neg (fixedText d p fl.alt true) [])
   | .sci => do
-    let n ← needNum v
     let p := prec.getD 6
+    if p > maxFloatPrec then throw Err.tooLarge
+    let n ← needNum v
     let d ← lookupDig n.sci p
     pure (floatConv fl width n.neg (fixedText d p fl.alt true) (expText c.caps n.exp))
   | .shorter => do
+    if prec.getD 6 > maxFloatPrec then throw Err.tooLarge
     let n ← needNum v
     let p := max (prec.getD 6) 1
     if n.exp < -4 || n.exp ≥ (p : Int) then do
